@@ -44,6 +44,11 @@ pub struct C12Case {
     pub n: usize,
     pub newest: bool,
     pub damage: Damage,
+    /// Some(k): after the first k transactions both headers are re-encoded in the legacy
+    /// (<= 0.10, SHA3) format, the remaining n - k transactions run on that file (k = n: a purely
+    /// legacy file; k = n - 1: newest header current format, older one still legacy)
+    #[serde(default)]
+    pub legacy_after: Option<usize>,
 }
 
 pub fn defined(off: usize) -> bool {
@@ -59,17 +64,56 @@ pub struct Prepared {
     pub prev_page: [Option<Vec<u8>>; 2],
     pub state_changed: bool,
     pub ps: usize,
+    /// header slot i carries the legacy (SHA3) record: its digest bytes 104..128 are defined too
+    pub legacy_slot: [bool; 2],
 }
 
-pub fn prepare(history: &HistoryCase, n: usize, path: &std::path::Path) -> Result<Prepared, Failure> {
+pub fn prepare(history: &HistoryCase, n: usize, legacy_after: Option<usize>, path: &std::path::Path) -> Result<Prepared, Failure> {
     let mut h = history.clone();
     h.txs.truncate(n);
     let mut opts = RunOpts::standard(path.to_path_buf());
     opts.keep_file = true;
     opts.final_reopen = false;
     opts.snap_headers = true;
-    let o = run_history(&h, &opts);
-    o.result?;
+    let o = match legacy_after {
+        None => {
+            let o = run_history(&h, &opts);
+            if let Err(f) = o.result {
+                return Err(f);
+            }
+            o
+        }
+        Some(k) => {
+            let k = k.min(h.txs.len());
+            let mut h1 = h.clone();
+            h1.txs.truncate(k);
+            let o1 = run_history(&h1, &opts);
+            if let Err(f) = o1.result {
+                return Err(f);
+            }
+            let ps = history.cfg.pagesize;
+            let mut img = std::fs::read(path).map_err(|e| Failure::new("io", e.to_string()))?;
+            crate::golden::to_legacy(&mut img, ps).map_err(|e| Failure::new("harness_panic", e))?;
+            std::fs::write(path, &img).map_err(|e| Failure::new("io", e.to_string()))?;
+            let mut h2 = h.clone();
+            h2.txs.drain(..k);
+            let mut opts2 = opts.clone();
+            opts2.start_model = Some(o1.model.clone());
+            let mut o2 = run_history(&h2, &opts2);
+            if let Err(f) = o2.result {
+                return Err(f);
+            }
+            // one history: commit models and header snapshots of both phases (the first phase's
+            // snapshots re-encoded, as the file was)
+            let mut cms = o1.commit_models.clone();
+            cms.append(&mut o2.commit_models);
+            let mut snaps: Vec<Vec<u8>> = o1.header_snaps.iter().map(|s| { let mut s = s.clone(); let _ = crate::golden::to_legacy(&mut s, ps); s }).collect();
+            snaps.append(&mut o2.header_snaps);
+            o2.commit_models = cms;
+            o2.header_snaps = snaps;
+            o2
+        }
+    };
     let bytes = std::fs::read(path).map_err(|e| Failure::new("io", e.to_string()))?;
     let _ = std::fs::remove_file(path);
     let ps = history.cfg.pagesize as usize;
@@ -89,7 +133,12 @@ pub fn prepare(history: &HistoryCase, n: usize, path: &std::path::Path) -> Resul
         let snap = &o.header_snaps[nc - 3];
         prev_page[other] = Some(snap[other * ps..(other + 1) * ps].to_vec());
     }
-    Ok(Prepared { state_changed: s_n != s_prev, bytes, s_n, s_prev, newest_slot, prev_page, ps })
+    let mut legacy_slot = [false, false];
+    for slot in 0..2u8 {
+        let (new_fmt, old_fmt) = fsck::parse_meta(&bytes, ps as u64, slot);
+        legacy_slot[slot as usize] = new_fmt.is_none() && old_fmt.is_some();
+    }
+    Ok(Prepared { state_changed: s_n != s_prev, bytes, s_n, s_prev, newest_slot, prev_page, ps, legacy_slot })
 }
 
 /// Applies the damage to a copy of the header page; returns (damaged page, changed_any, changed_defined).
@@ -139,7 +188,7 @@ pub fn apply(p: &Prepared, newest: bool, d: &Damage) -> (Vec<u8>, bool, bool) {
     for i in 0..p.ps {
         if b[base + i] != p.bytes[pbase + i] {
             any = true;
-            if defined(i) {
+            if defined(i) || (p.legacy_slot[slot] && (104..128).contains(&i)) {
                 def = true;
             }
         }
@@ -186,10 +235,12 @@ pub fn check_one(p: &Prepared, cfg: &Cfg, newest: bool, d: &Damage, path: &std::
         if def {
             let exp = if newest { expected_newest_hit } else { expected_older_hit };
             compare_dump(exp, &d, &format!("{}: expected the state of the intact header", what))
-        } else if d == *expected_older_hit || d == *expected_newest_hit {
+        } else if crate::model::diff(expected_older_hit, &d, &mut vec![], false).is_none() || crate::model::diff(expected_newest_hit, &d, &mut vec![], false).is_none() {
+            // (the root bucket's own counter is not visible through the API: compared without it)
             Ok(())
         } else {
-            compare_dump(&p.s_n, &d, &format!("{} (only undefined bytes changed)", what))
+            let vs_prev = crate::model::diff(&p.s_prev, &d, &mut vec![], false).unwrap_or_else(|| "equal".into());
+            compare_dump(&p.s_n, &d, &format!("{} (only undefined bytes changed; against the previous state: {})", what, vs_prev))
         }
     });
     let restore = patch_page(path, base as u64, &p.bytes[base..base + p.ps]);
@@ -269,10 +320,11 @@ fn shard(ctx: &ShardCtx, known: &Known) -> ShardOut {
             });
         }
         for n in 0..=n_max.min(hist.txs.len()) {
-            let p = match prepare(&hist, n, &path) {
+            for legacy_after in variants(n, ctx.shard + hi) {
+            let p = match prepare(&hist, n, legacy_after, &path) {
                 Ok(p) => p,
                 Err(f) => {
-                    let case = C12Case { history: hist.clone(), n, newest: true, damage: Damage::ZeroPage };
+                    let case = C12Case { history: hist.clone(), n, newest: true, damage: Damage::ZeroPage, legacy_after };
                     record_case(ctx, &mut out, known, "c12", &case, CaseVerdict { failure: Some(f), nontrivial: false, classes: vec![] });
                     break;
                 }
@@ -293,6 +345,11 @@ fn shard(ctx: &ShardCtx, known: &Known) -> ShardOut {
                     let mut classes = Vec::new();
                     classes.push(if def { "defined byte changed".to_string() } else { "only undefined bytes changed".to_string() });
                     classes.push(format!("{} header", if newest { "newest" } else { "older" }));
+                    match legacy_after {
+                        Some(k) if k >= n => classes.push("file with legacy headers".to_string()),
+                        Some(_) => classes.push("file with one legacy and one current header".to_string()),
+                        None => {}
+                    }
                     classes.push(match d {
                         Damage::Xor { .. } | Damage::Set { .. } => "single byte".to_string(),
                         Damage::ZeroPage => "zeroed page".to_string(),
@@ -302,7 +359,7 @@ fn shard(ctx: &ShardCtx, known: &Known) -> ShardOut {
                         Damage::Tail { .. } => "tail overwrite".to_string(),
                     });
                     if r.is_err() || nt && out.samples.len() < 3 && out.evaluations % 997 == 0 {
-                        let case = C12Case { history: hist.clone(), n, newest, damage: d.clone() };
+                        let case = C12Case { history: hist.clone(), n, newest, damage: d.clone(), legacy_after };
                         note_current(ctx, "c12", &case);
                         record_case(ctx, &mut out, known, "c12", &case, CaseVerdict { failure: r.err(), nontrivial: nt, classes });
                     } else {
@@ -312,7 +369,7 @@ fn shard(ctx: &ShardCtx, known: &Known) -> ShardOut {
                             out.class(c);
                         }
                         if nt {
-                            out.nontrivial.insert(mix(mix(hash_json(d), n as u64), mix(ctx.shard as u64 * 2 + hi as u64, newest as u64)));
+                            out.nontrivial.insert(mix(mix(hash_json(d), n as u64), mix(ctx.shard as u64 * 2 + hi as u64, newest as u64 + 2 * legacy_after.map(|k| k as u64 + 1).unwrap_or(0))));
                         }
                     }
                     if out.failures.len() >= 5 {
@@ -321,11 +378,22 @@ fn shard(ctx: &ShardCtx, known: &Known) -> ShardOut {
                     }
                 }
             }
+            }
         }
     }
     clear_current(ctx);
     out.exhaustive = Some(true);
     out
+}
+
+/// Header formats per commit count: always the current format; on two of three (n, shard)
+/// combinations also a purely legacy file or a file one commit past its conversion.
+fn variants(n: usize, salt: usize) -> Vec<Option<usize>> {
+    match (n + salt) % 3 {
+        1 => vec![None, Some(n)],
+        2 if n >= 1 => vec![None, Some(n - 1)],
+        _ => vec![None],
+    }
 }
 
 pub fn replay(fr: &FailRec, dir: &std::path::Path) -> Option<Failure> {
@@ -334,7 +402,7 @@ pub fn replay(fr: &FailRec, dir: &std::path::Path) -> Option<Failure> {
         Err(e) => return Some(Failure::new("harness_panic", format!("bad C12 case: {}", e))),
     };
     let path = dir.join("c12.db");
-    let p = match prepare(&case.history, case.n, &path) {
+    let p = match prepare(&case.history, case.n, case.legacy_after, &path) {
         Ok(p) => p,
         Err(f) => return Some(f),
     };
